@@ -1905,17 +1905,11 @@ func (app *App) repairCascadeNode(node *mysql.Node, clusterState map[string]*nod
 	cnc := cascadeTopology[host]
 
 	if state.SlaveState == nil {
-		app.logger.Warn().Msgf("repair: current Slave/Replica Status is unknown. Blindly change master on %s to '%s'", host, cnc.StreamFrom)
-		err := app.performChangeMaster(host, cnc.StreamFrom)
-		if err != nil {
-			app.logger.Warn().Msgf("repair: failed to change master on host %s to new value %s", host, cnc.StreamFrom)
-			return
-		}
-		err = node.StartSlave()
-		if err != nil {
-			app.logger.Warn().Msgf("repair: failed to start slave %s", host)
-			return
-		}
+		// A node without replica status is handled as a stale master before we get here, so the status
+		// is missing only because this observation of the node was incomplete (a status query failed).
+		// Re-pointing "blindly" to the configured stream_from could move a healthy replica to a source
+		// that lacks its transactions (or to itself): wait for a complete observation instead.
+		app.logger.Warn().Msgf("repair: current Slave/Replica Status of %s is unknown, will retry on next iteration", host)
 		return
 	}
 
